@@ -211,6 +211,15 @@ class AlignSpace(Subspace):
                             cells.append((name, arg, n, "series", "index", kind))
                             # only the keys and this argument are pandas objects, the rest NumPy
                             cells.append((name, arg, n, "pair", "index", kind))
+        # aligned controls under a NON-default index: every pandas argument carries the same labels
+        # ('labelled'), or only the first argument (the keys) is labelled and the rest are bare arrays
+        # ('labelled-first'): aligned inputs must never be rejected
+        for name, (args, _) in ops.items():
+            for n in (3, 5):
+                for lab in ("strings", "shifted", "reversed"):
+                    cells.append((name, args[0], n, "labelled", "control", lab))
+                    if not name.startswith("facade."):  # the facade's object is always a pandas object
+                        cells.append((name, args[0], n, "labelled-first", "control", lab))
         cells = [c + ("f8",) for c in cells]
         # the same table with temporal values (operations that do not take them drop out at the
         # aligned control)
@@ -247,10 +256,19 @@ class AlignSpace(Subspace):
         seams.set(executor=sched.NAMESPACE)
         sched.set_schedule(sched.Schedule())
 
+        LAB = {"strings": lambda n: pd.Index([f"r{i}" for i in range(n)]),
+               "shifted": lambda n: pd.RangeIndex(5, 5 + n),
+               "reversed": lambda n: pd.Index(list(range(n))[::-1])}
+
         def build():
             a = {k: None for k in ("keys", "codes", "values", "values2", "mask", "mask2", "times")}
             for k in args:
-                if cont == "pair":
+                if cont in ("labelled", "labelled-first"):
+                    if k == "codes" or (cont == "labelled-first" and k != args[0]):
+                        a[k] = _mk(n, k, "ndarray", vkind=vkind)
+                    else:
+                        a[k] = _mk(n, k, "series", index=LAB[case["p"]](n), vkind=vkind)
+                elif cont == "pair":
                     first = args[0]
                     a[k] = _mk(n, k, "series" if k in (first, case["arg"]) else "ndarray", vkind=vkind)
                 else:
@@ -274,6 +292,9 @@ class AlignSpace(Subspace):
                 res.fail("aligned-rejected", f"{tag}: aligned inputs raised {err}")
             else:
                 res.nontrivial = False    # the operation is not defined for temporal values
+            seams.reset()
+            return res
+        if case["ptype"] == "control":
             seams.reset()
             return res
         a = build()
